@@ -131,6 +131,15 @@ def generate(rng, tier, idx):
             if others:
                 out.append({"op": "var_add", "var": v["n"], "into": pick(rng, others)})
         return out
+    dup = []
+    kids = [v for v in K["vars"] if v["parent"] is not None and K["vars"][v["parent"]]["parent"] is None and not K["vars"][v["parent"]]["dashed"]]
+    if kids and rng.random() < 0.2:
+        # a childless top-level variant whose dashed UID equals the UID of somebody's child (Server > optional and a top-level
+        # 'Server-optional'): every add is valid on its own, the forest as a whole has the UID twice and must not be written
+        c = pick(rng, kids)
+        pid = K["vars"][c["parent"]]["id"]
+        dup = [{"op": "var_new", "vid": 300, "id": pid + c["id"], "uid": c["uid"], "name": "Twin", "type": "optional", "arches": ["x86_64"]},
+               {"op": "var_add", "var": 300, "into": "top"}, {"op": "dump", "path": path}, {"op": "dumps"}]
     tail = own + offers() + [{"op": "forest_check"}, getv_op(K, rng), getv_op(K, rng), {"op": "dump", "path": path},
-                       {"op": "restart", "path": path, "via": "path"}] + offers() + [{"op": "forest_check"}, getv_op(K, rng), {"op": "dumps"}]
+                       {"op": "restart", "path": path, "via": "path"}] + offers() + [{"op": "forest_check"}, getv_op(K, rng), {"op": "dumps"}] + dup
     return {"machine": "M-CI", "cfg": {"simset": pick(rng, ["insertion", "shuffle", "reverse"])}, "ops": head + body + tail}
